@@ -10,13 +10,14 @@ RULE = ("seeded gen_coords runs over topologies in which equal residue names hav
         "residue names; the optimiser verdict is forced to 'failed' 0..14 times in a row from the decision tape (retry loop "
         "and fall-through); oracle on the captured topology: grouping by labelled-graph isomorphism, key sets, zero centre, "
         "virtual-site constructions, tolerances unless a failed-to-optimise warning was logged, user templates/sizes "
-        "unchanged and not optimised, sizes > 0; non-trivial = >= 2 templates or an optimiser fault fired; "
+        "unchanged and not optimised, sizes > 0, every generated size equal to the size recomputed from the residue's own "
+        "template (names with build-file sizes/templates and templates with an atom on the centre not judged); non-trivial = >= 2 templates or an optimiser fault fired; "
         "distinct = distinct event-log digests")
 ASSUMPTIONS = wa.ASSUMPTIONS + ["atom names are unique inside a generated residue, so labelled-graph isomorphism is decided by "
                                 "comparing (names, name-labelled edges); virtual-site kinds generated: virtual_sitesn funct 1, "
                                 "virtual_sites2, virtual_sites3 funct 1"]
 REAL_VS_STUB = wa.REAL_VS_STUB
-PROBES = wa.PROBES + ["earlier_call_same_topology_paths", "improper_dihedral", "strained_ring", "skip_filter", "unoptimisable_residue", "optimisation_fall_through", "user_template", "user_volume", "resname_clash", "unsorted_section_lines", "angles_vs_improper_conflict", "proper_after_improper_same_atoms", "volume_for_clashing_name", "local_strain_in_long_residue", "two_build_files"]
+PROBES = wa.PROBES + ["generated_size_recomputed", "earlier_call_same_topology_paths", "improper_dihedral", "strained_ring", "skip_filter", "unoptimisable_residue", "optimisation_fall_through", "user_template", "user_volume", "resname_clash", "unsorted_section_lines", "angles_vs_improper_conflict", "proper_after_improper_same_atoms", "volume_for_clashing_name", "local_strain_in_long_residue", "two_build_files"]
 PROFILE = {"impossible_p": 0.4, "vs_p": 0.4, "improper_p": 0.6, "strained_p": 0.35, "conflict_p": 0.12, "local_strain_p": 0.08,
            "n_restypes": (2, 3), "n_moltypes": (2, 3), "max_atoms": 4, "faults": ["opt", "opt", "step"],
            "max_molecules": 5, "maxres": 5, "box_modes": ["cubic"], "n_entries": (2, 3)}
